@@ -30,9 +30,33 @@ fn check_inner(prop: &str, w: &J) -> Result<(), String> {
         "C06" => c06(&Cfg::from_json(w.get("cfg").unwrap_or(&J::Null))),
         "C17" => c17(&Cfg::from_json(w.get("cfg").unwrap_or(&J::Null))),
         "C07" => c07(&Cfg::from_json(w.get("cfg").unwrap_or(&J::Null))),
+        "C16" if w.str("kind") == "big" => {
+            // compact witness for the total-size rule: an APP packet with a payload of `len` bytes
+            let cfg = Cfg::App { ssrc: 1, padding: 0, subtype: 0, name: "big".into(), data: vec![0u8; w.num("len") as usize] };
+            c16(&cfg)
+        }
         "C16" => c16(&Cfg::from_json(w.get("cfg").unwrap_or(&J::Null))),
         "C02" | "C03" | "C04" | "C05" => roundtrip(&Cfg::from_json(w.get("cfg").unwrap_or(&J::Null))),
         "C14" => c14(&Cfg::from_json(w.get("cfg").unwrap_or(&J::Null))),
+        "C19" => c19(w),
+        "C08" => crate::props2::c08(&w.bytes("bytes")),
+        "C09" => crate::props2::c09(&w.bytes("bytes")),
+        "C10" => {
+            if w.get("cfg").is_some() {
+                // well-formed packet from the independent encoder
+                match ref_encode(&Cfg::from_json(w.get("cfg").unwrap())) {
+                    Some(b) => crate::props2::c10(&b),
+                    None => Ok(()),
+                }
+            } else {
+                crate::props2::c10(&w.bytes("bytes"))
+            }
+        }
+        "C11" => crate::props2::c11(&w.bytes("bytes")),
+        "C12" => crate::props2::c12(&w.bytes("bytes")),
+        "C15" => crate::props2::c15(&w.bytes("bytes")),
+        "C18" => crate::props2::c18(&w.bytes("bytes")),
+        "C13" => crate::props2::c13(&Cfg::from_json(w.get("cfg").unwrap_or(&J::Null)), w.num("pad") as u8),
         _ => Ok(()),
     }
 }
@@ -481,4 +505,106 @@ pub fn c14(cfg: &Cfg) -> Result<(), String> {
         }
     }
     Ok(())
+}
+
+/// C19: third-party packet types built on the public helpers interoperate
+pub fn c19(w: &J) -> Result<(), String> {
+    use crate::custom::{Custom, CustomBuilder};
+    if w.str("kind") == "custom" {
+        let padding = w.num("padding") as u8;
+        let ssrc = w.num("ssrc") as u32;
+        let payload = [ssrc as u8, 2, 3, 4];
+        let b: CustomBuilder = Custom::builder(ssrc).padding(padding).payload(payload);
+        let size = b.calculate_size();
+        match size {
+            Ok(n) => {
+                let mut buf = vec![0x33u8; n + 3];
+                let r = b.write_into(&mut buf);
+                if r != Ok(n) {
+                    return Err(format!("third-party builder: calculate_size = {} but write_into = {:?}", n, r));
+                }
+                let bytes = &buf[..n];
+                if bytes[0] != (0x80 | if padding > 0 { 0x20 } else { 0 }) || bytes[1] != 242 || 4 * (((bytes[2] as usize) << 8 | bytes[3] as usize) + 1) != n {
+                    return Err("third-party packet: header written by the helper is wrong".into());
+                }
+                if padding > 0 && (bytes[n - 1] != padding || bytes[n - padding as usize..n - 1].iter().any(|&x| x != 0)) {
+                    return Err("third-party packet: padding trailer wrong".into());
+                }
+                let p = Packet::parse(bytes).map_err(|e| format!("generic parser rejects the third-party packet: {:?}", e))?;
+                match &p {
+                    Packet::Unknown(u) => {
+                        if u.data() != bytes {
+                            return Err("unknown packet does not expose the exact bytes".into());
+                        }
+                    }
+                    _ => return Err("third-party packet not parsed as Unknown".into()),
+                }
+                let c = p.try_as::<Custom>().map_err(|e| format!("conversion back to the third-party type failed: {:?}", e))?;
+                if c.ssrc() != ssrc || c.payload() != &payload || c.padding() != if padding == 0 { None } else { Some(padding) } {
+                    return Err("third-party fields not intact".into());
+                }
+                // embedded in a compound
+                let comp = Compound::builder().add_packet(Custom::builder(ssrc).padding(padding).payload(payload));
+                let cn = comp.calculate_size().map_err(|e| format!("compound with third-party member: {:?}", e))?;
+                let mut cb = vec![0u8; cn];
+                comp.write_into(&mut cb).map_err(|e| format!("compound with third-party member: {:?}", e))?;
+                if cb != bytes {
+                    return Err("compound of one third-party member differs from the member".into());
+                }
+                Ok(())
+            }
+            Err(_) => {
+                if padding % 4 == 0 {
+                    return Err("third-party builder rejects a legal padding".into());
+                }
+                Ok(())
+            }
+        }
+    } else if w.get("cfg").is_some() {
+        // unknown-builder configurations: correct header/trailer, accepted as Unknown exposing the exact bytes
+        let cfg = Cfg::from_json(w.get("cfg").unwrap());
+        if let Cfg::Unknown { type_, .. } = &cfg {
+            if let Some(bytes) = built(&cfg) {
+                if let Some(want) = ref_encode(&cfg) {
+                    if bytes != want {
+                        return Err("unknown builder image differs from the RFC image".into());
+                    }
+                }
+                if !(200..=206).contains(type_) {
+                    match Packet::parse(&bytes) {
+                        Ok(Packet::Unknown(u)) => {
+                            if u.data() != &bytes[..] {
+                                return Err("unknown packet does not expose the exact bytes".into());
+                            }
+                        }
+                        other => return Err(format!("raw packet not accepted as Unknown: {:?}", other.map(|_| ()))),
+                    }
+                }
+            }
+        }
+        c06(&cfg)?;
+        c16(&cfg)
+    } else {
+        // header-checking helper accepts precisely the well-framed strings (minimum sizes 4..=16, several types)
+        let d = w.bytes("bytes");
+        macro_rules! helper {
+            ($name:ident, $pt:expr, $min:expr) => {{
+                struct $name;
+                impl RtcpPacket for $name {
+                    const MIN_PACKET_LEN: usize = $min;
+                    const PACKET_TYPE: u8 = $pt;
+                }
+                let r = utils::parser::check_packet::<$name>(&d);
+                let want = crate::refdec::framed(&d, Some($pt), $min) && crate::refdec::pad_count(&d) <= d.len().saturating_sub($min);
+                if r.is_ok() != want {
+                    return Err(format!("check_packet::<type {}, min {}> accepted = {} but well-framed = {}", $pt, $min, r.is_ok(), want));
+                }
+            }};
+        }
+        helper!(T1, 242, 12);
+        helper!(T2, 207, 4);
+        helper!(T3, 200, 28);
+        helper!(T4, 250, 8);
+        Ok(())
+    }
 }
